@@ -18,7 +18,7 @@ from typing import (
 
 import icontract._represent
 from icontract._globals import CallableT, ClassT
-from icontract._types import Contract, Snapshot, InvariantCheckEvent
+from icontract._types import Contract, Snapshot
 from icontract.errors import ViolationError
 
 
@@ -1226,8 +1226,12 @@ def add_invariant_checks(cls: ClassT) -> None:
 
     # As we continuously decorate the class with invariants, we never definitely know
     # whether this decoration is the last one. Hence, we can only retrieve the list
-    # of invariants decorated *thus far*. As we only add one invariant at the time,
-    # we only need to check for the last invariant.
+    # of invariants decorated *thus far*.
+    #
+    # Mind that a class can obtain several invariants at once when it inherits them through
+    # the meta-class. We therefore have to consider the events of *all* the invariants
+    # known thus far, and not only of the last one. The functions which have been already
+    # decorated will not be re-decorated.
     assert cls.__invariants__ is not None, (  # type: ignore
         "Expected to set ``__invariants__`` in the invariant decorator before "
         "the call to {}".format(add_invariant_checks.__name__)
@@ -1237,11 +1241,16 @@ def add_invariant_checks(cls: ClassT) -> None:
         "to push the latest invariant in the invariant decorator before the call to "
         "{}".format(add_invariant_checks.__name__)
     )
-    last_invariant = cls.__invariants__[-1]  # type: ignore
-    assert isinstance(last_invariant, icontract._types.Invariant)
+    assert all(
+        isinstance(an_invariant, icontract._types.Invariant)
+        for an_invariant in cls.__invariants__  # type: ignore
+    )
+
+    check_on_call = len(getattr(cls, "__invariants_on_call__", [])) > 0
+    check_on_setattr = len(getattr(cls, "__invariants_on_setattr__", [])) > 0
 
     # Filter out entries in the directory which are certainly not candidates for decoration
-    # regarding the ``last_invariant``. Note that the functions which are already decorated
+    # regarding the events of the invariants. Note that the functions which are already decorated
     # will not be re-decorated, so that this loop runs in O( dir(cls) * len(invariants) ),
     # but with a negligible constant.
     for name in dir(cls):
@@ -1264,16 +1273,10 @@ def add_invariant_checks(cls: ClassT) -> None:
             init_func = value
             continue
 
-        if (
-            name != "__setattr__"
-            and InvariantCheckEvent.CALL not in last_invariant.check_on
-        ):
+        if name != "__setattr__" and not check_on_call:
             continue
 
-        if (
-            name == "__setattr__"
-            and InvariantCheckEvent.SETATTR not in last_invariant.check_on
-        ):
+        if name == "__setattr__" and not check_on_setattr:
             continue
 
         if (
